@@ -164,7 +164,8 @@ class Value:
                 self.network = Network(network_names[0])
                 self.currency = cur_code
             else:
-                for den, symb in NETWORK_DENOMINATORS.items():
+                # Try longest symbols first, otherwise 'da' (deca) is never found because it also starts with 'd' (deci)
+                for den, symb in sorted(NETWORK_DENOMINATORS.items(), key=lambda x: -len(x[1])):
                     if len(symb) and cur_code[:len(symb)] == symb:
                         cur_code = cur_code[len(symb):]
                         network_names = [n for n in NETWORK_DEFINITIONS if
